@@ -45,6 +45,8 @@ pub struct PrefixJudge<'a> {
 impl<'a> PrefixJudge<'a> {
     pub fn new(full: &'a [u8], case_tag: &str) -> Self {
         let mut world = World::new();
+        // reader buffer capacity varies with the case (shipped: 8 KiB)
+        world.knobs.bufreader_cap = [8192usize, 8192, 8192, 512, 64][(crate::seed::fnv64(case_tag.as_bytes()) % 5) as usize];
         world.put_file(PATH, full.to_vec());
         PrefixJudge { full, tag: case_tag.to_string(), world: Some(world) }
     }
